@@ -373,7 +373,6 @@ def run_shipped(R, env_id):
 def jobs(tier, seed):
     js = [("grammar", "checks.C18", "run_grammar", {"N": 5 if tier == "quick" else 8, "D": 3 if tier == "quick" else 6}),
           ("registry", "checks.C18", "run_registry", {})]
-    sys.path.insert(0, "/repo")
     import jumanji
     for i in sorted(jumanji.registered_environments()):
         js.append((f"shipped/{i}", "checks.C18", "run_shipped", {"env_id": i}))
